@@ -243,6 +243,9 @@ def run(ctx):
 
     # ------------------------------------------------------------------ R6 "at least one" helpers need a non-zero budget
     bounded_sequence_guard(ctx, "C06-R6")
+    # R7: allOf / sibling applicators: a property present in both operands gets both constraints (shared with C07-R3)
+    from . import c07 as _c07
+    _c07.intersect_operands(ctx, "C06-R7")
 
 
 def bounded_sequence_guard(ctx, R):
